@@ -6,7 +6,7 @@ add("C04", "checks/c04_numeric.c", ["default-asan", "default-plain", "c89-plain"
     "x with/without white space x 5 numbers, every special mnemonic in short/long form and 3 letter cases; distinct_nontrivial = distinct literals",
     post="py/c04_exact.py",
     deps=["checks/c04_units.inc"],
-    rule_more="literals of 26..600 digits; flavours c89 (no strtof), c99, optall (imperial units; reference table grouped by unit-group option); decoy context",
+    rule_more="literals of 26..600 digits; flavours c89 (no strtof), c99, optall (imperial units; reference table grouped by unit-group option); decoy context; each literal delivered in one of four ways (LF, CR LF, flush call, pending behind a complete message of the same input call and then flushed); runs of 3..130 blanks around the exponent mark",
     technique="reference-value monitor: decoded bit patterns compared in-process with glibc strtod/strtof on the white-space-free literal and exact integer arithmetic; a stratified sample of records re-decided offline with exact rational arithmetic (fractions.Fraction, own round-half-even)",
     level_text="exploration by execution over generated literals (5x10^5 quick / 1.2x10^7 thorough readings per flavour); the suffix table, special mnemonics and booleans are enumerated completely; about one literal in eight plus every literal with white space is re-checked without glibc",
     level_note="trusted: glibc strtod/strtof for the unsampled part, the 60-line exact-arithmetic checker, the independent unit-table copy (rows unknown to it are reported as inconclusive, not as violations)",
